@@ -1027,7 +1027,7 @@ func VerifBuiltinStableWide(n int) {
 }
 
 // VerifBuiltinTable (kernel job, replayed in a natively compiled test binary): one of the
-// C12 programs followed by the wide probe is evaluated through the four real rounds
+// C12 programs is evaluated through the four real rounds
 // (evaluationLoop in load mode: same evaluation, no printing, no os.Exit), then every
 // Builtin-frame method T of TFrame is compared field by field with a snapshot taken before;
 // the class names the entry and the field that changed.
@@ -1046,7 +1046,8 @@ func VerifBuiltinTable(n int) {
 		}
 	}
 	verifInstallSym(need...)
-	src := text + verifWideProbe
+	// the program alone: what a later probe would see is the stable-wide job's business
+	src := text
 	verifapi.Witness("src", src)
 	verifapi.Witness("program", name)
 	snap := base.VerifBuiltinSnapshot()
@@ -2408,9 +2409,12 @@ var verifDetPrograms = []struct{ name, text string }{
 	{"static-and-instance-namesakes", "class Kk\ndef self.ff\n1\nend\ndef ff\n\"s\"\nend\nend\nclass Jj\ndef ff\n2\nend\nend\nKk.ff\nKk.new.ff\nJj.new.ff\n"},
 	{"same-class-name-in-two-modules", "module Ma\nclass Cc\ndef g\n1\nend\nend\nend\nmodule Mb\nclass Cc < String\ndef g\n2\nend\nend\nend\nx = Ma::Cc.new\nx.g\n"},
 	{"overloaded-builtin-use", "a = [1, 2]\nb = a.first\nc = a.first(1)\nd = 1 + 2\ndef hh(v)\nv\nend\nhh(1)\nhh(\"s\")\n"},
+	{"same-class-name-in-doubly-nested-modules", "module Ap\nmodule Va\nclass It\ndef g\n1\nend\nend\nend\nmodule Vb\nclass It < String\ndef g\n2\nend\nend\nend\nend\nmodule Wb\nmodule Va\nclass It\ndef g\n3\nend\nend\nend\nend\nx = Ap::Va::It.new\nx.g\n"},
+	{"inheritance-and-mixins", "module Mx\ndef mm\n1\nend\nend\nmodule My\ndef mm\n2\nend\nend\nclass Pa\ninclude Mx\nend\nclass Ka < Pa\ninclude My\nextend Mx\nend\nclass Kb < Pa\nend\nKa.new.mm\nKb.new.mm\nKa.mm\n"},
 }
 
-var verifDetModes = []string{"-i", "--suggest", "--hover", "--llm-nav", "--llm-nav --target=ff", "--llm-define", "--llm-class", "--extends --class=Cc", "--define", "", "--llm-nav --all", "--llm-define --class=Kk"}
+var verifDetModes = []string{"-i", "--suggest", "--hover", "--llm-nav", "--llm-nav --target=ff", "--llm-define", "--llm-class", "--extends --class=Cc", "--define", "", "--llm-nav --all", "--llm-define --class=Kk",
+	"--extends --class=It", "--extends --class=Ka", "--llm-nav --target=g", "--llm-nav --target=mm", "--llm-define --class=It"}
 
 func verifSortLines(s string) string {
 	if s == "" {
